@@ -9,12 +9,20 @@ mkdir -p $BUILD/shim
 echo "#include \"$REPO/compat/libc/include/ctype.h\"" > $BUILD/shim/ctype.h
 printf '#include_next <errno.h>\n#include <igris/util/errno.h>\n' > $BUILD/shim/errno.h
 LIBC="-O1 -g -fsanitize=address -fno-omit-frame-pointer -fno-builtin -D_GNU_SOURCE -D__weak_alias(a,b)= -isystem $BUILD/shim -I$REPO"
-par clang -c $CF $REPO/igris/util/numconvert.c -o $BUILD/numconvert.o
-par clang -c $LIBC $REPO/compat/libc/stdlib/strtod.c -o $BUILD/strtod.o
-par clang -c $CF $REPO/igris/dprint/dprint_func_impl.c -o $BUILD/dprint.o
-par clang++ -std=c++17 -c $CF $H/c12_float.cpp -o $BUILD/h.o
+# two builds of everything that handles characters: plain char signed (host default) and -funsigned-char
+for V in s u; do
+  if [ $V = u ]; then X="-funsigned-char -DVARIANT_UCHAR"; else X=""; fi
+  par clang -c $CF $X $REPO/igris/util/numconvert.c -o $BUILD/numconvert_$V.o
+  par clang -c $LIBC $X $REPO/compat/libc/stdlib/strtod.c -o $BUILD/strtod_$V.o
+  par clang -c $CF $X $REPO/igris/dprint/dprint_func_impl.c -o $BUILD/dprint_$V.o
+  par clang++ -std=c++17 -c $CF $X $H/c12_float.cpp -o $BUILD/h_$V.o
+done
 par clang++ -std=c++17 -O2 -c -I$MC $MC/mc.cpp -o $BUILD/mc.o
 parwait
-objcopy --redefine-sym strtod=igc_strtod --redefine-sym atof=igc_atof $BUILD/strtod.o
-clang++ -fsanitize=address $BUILD/h.o $BUILD/numconvert.o $BUILD/strtod.o $BUILD/dprint.o $BUILD/mc.o -o $BUILD/c12
-echo "float $BUILD/c12" > $BUILD/runs.txt
+for V in s u; do objcopy --redefine-sym strtod=igc_strtod --redefine-sym atof=igc_atof $BUILD/strtod_$V.o; done
+par clang++ -fsanitize=address $BUILD/h_s.o $BUILD/numconvert_s.o $BUILD/strtod_s.o $BUILD/dprint_s.o $BUILD/mc.o -o $BUILD/c12
+par clang++ -fsanitize=address $BUILD/h_u.o $BUILD/numconvert_u.o $BUILD/strtod_u.o $BUILD/dprint_u.o $BUILD/mc.o -o $BUILD/c12u
+parwait
+# the short variant run first: ./check splits the remaining deadline evenly over the runs that are left
+echo "float_unsigned_char $BUILD/c12u" > $BUILD/runs.txt
+echo "float $BUILD/c12" >> $BUILD/runs.txt
